@@ -130,10 +130,12 @@ def viewBranch (ops : List VOp) (states : List VState) : String :=
 
 /-! ## families `combo`, `dcombo`: attribute / dataset pickers
 
-`(combo (nData idx (op …)) <snapshots>)`, snapshot =
+`(combo (nData idx (op …) [hasDc]) <snapshots>)` (`hasDc = F`: helper built without data collection,
+subscribes lazily; default `T`), snapshot =
 `((F numeric datetime categorical pixel world derived none) (H (id (m (cid kind)…) (dv cid…) (p cid…) (w cid…))…)
-  (c choice…) (s sel) (e T|F) (q depth))`, `choice = N | (sd d) | sm | sdv | sc | (c k)`, `sel = N | k`.
-`F`, `H` are read from the real helper and the real `Data` objects (`H` = `helper._data`). -/
+  (c choice…) (s sel) (e T|F) (q depth) (u hubSet subscribed))`, `choice = N | (sd d) | sm | sdv | sc | (c k)`,
+`sel = N | k`.  `F`, `H`, `u` are read from the real helper, the real `Data` objects and the real hub
+(`H` = `helper._data`, `u` = `helper._hub is not None`, `helper in hub._subscriptions`). -/
 section Combo
 open GlueVerif.C18Combo
 
